@@ -125,7 +125,16 @@ def cpp_facts():
     for name, body in bodies:
         by_name.setdefault(name, []).append(body)
     pushes = by_name.get("push", [])
-    facts["pushNotifies"] = len(pushes) >= 1 and all(re.search(r"m_cond\.notify_(one|all)\(\)", b) for b in pushes)
+    def notifies_unconditionally(body):
+        """a notify call that is a statement of its own at the top level of the function body: not guarded by
+        `if` / `else` / a loop, not inside a nested block"""
+        depth = 0
+        for stmt in re.split(r"(?<=[;{}])", body):
+            if re.search(r"m_cond\.notify_(one|all)\(\)", stmt) and depth == 0 and not re.search(r"\b(if|while|for|else)\b", stmt):
+                return True
+            depth += stmt.count("{") - stmt.count("}")
+        return False
+    facts["pushNotifies"] = len(pushes) >= 1 and all(notifies_unconditionally(b) for b in pushes)
     wk = by_name.get("wake_up", [])
     facts["wakeNotifiesAll"] = len(wk) == 1 and re.search(lock_re + r".*m_stopped\s*=\s*true;.*m_cond\.notify_all\(\)", wk[0], re.S) is not None
     # the worker re-tests the shutdown flag after every pop, before handing the item over
